@@ -29,7 +29,7 @@ func checkC11(r *Run) {
 
 	// ------------------------------------------------------------------ R1
 	r.Rule("C11-R1", "no write-then-fail: in every message handler (the closures returned by pos.NewHandler and gov.NewHandler and everything they call) no path performs a store write and afterwards returns a failure result; a callee's failure branch is taken to be write-free only if the callee itself has no such path (interprocedural fixpoint over the repo call graph); vetted infeasible instances are listed one by one", 2)
-	E := P.Effects()
+	E := P.effectsCached()
 	r.Stats["E5_functions_may_write"] = len(sortedFns(E.mayWrite))
 	r.Stats["E5_functions_can_fail"] = len(sortedFns(E.canFail))
 	for _, hn := range []string{"x/pos.NewHandler$1", "x/gov.NewHandler$1"} {
